@@ -13,7 +13,7 @@
 //!    parameters) - unless the PREPARE was answered with another id than the refused one, in which case the request
 //!    is NOT repeated under the new id;
 //!  * at the caller: every execution returns the normal result - for the SELECT the row the node built from THIS
-//!    request's key - except the ones whose re-preparation yielded a different id, which return an error.
+//!    request's key - except the ones whose re-preparation yielded a different id: those return an error (always).
 use super::common::*;
 use crate::mockcluster::*;
 use crate::mocknode::{BatchStmt, OP_BATCH, OP_EXECUTE, OP_PREPARE, Parsed, RESP_ERROR, RESP_RESULT, body_unprepared};
@@ -218,6 +218,13 @@ pub fn run(words: &[&str], ctx: &mut Ctx) -> String {
                         };
                         let id_changed = state.lock().unwrap().changed_at.len() > changed_before;
                         match res {
+                            Ok(_) if id_changed => {
+                                n_ok += 1;
+                                ctx.fail(format!(
+                                    "e2e evict: an execution ({}) returned Ok although its re-preparation had yielded a different id than the one the statement was prepared under (the caller must get an error)",
+                                    op
+                                ));
+                            }
                             Ok(r) => {
                                 n_ok += 1;
                                 if head == "e" {
